@@ -21,6 +21,12 @@ def run(ctx):
         ctx.exhaustive("Limiter_MC", "Limiter_MC", timeout=1800, coverage=True)
     ctx.exhaustive("Limiter_MC", "Limiter_MC_global", timeout=600)
     ctx.exhaustive("Limiter_MC", "Limiter_MC_gc", timeout=900)
+    # the bucket table at the grain of its critical sections: a bucket is forgotten only atomically with the
+    # decision (the variant that decides under the lock and removes afterwards loses a spent bucket)
+    ctx.exhaustive("LimiterStep", "LimiterStep_MC", timeout=300)
+    sp = vf.tlc("LimiterStep", cfg="LimiterStep_split", timeout=300)
+    if sp.ok or sp.violated != "Inv_C15_BurstBound":
+        raise vf.MachineryError("sensitivity run LimiterStep_split was not rejected")
     b = vf.tlc("Limiter_MC", cfg="Limiter_MC_gcbug", timeout=600)
     if b.ok or b.violated != "Inv_C15_Budget":
         raise vf.MachineryError("sensitivity run did not reject the collection of buckets that have not refilled")
